@@ -529,6 +529,14 @@ func (env *rEnv) eval(n *rNode) Value {
 		if mv, ok := base.(VMap); ok {
 			return env.mapIndex(mv, env.eval(n.Args[1]), n)
 		}
+		if sl, ok := base.(VSlice); ok {
+			if idx, okc := constIndex(env.eval(n.Args[1])); okc {
+				if arr, ok := env.post.heap[sl.Cell].(VStruct); ok && idx >= 0 && sl.Lo+idx < sl.Hi && sl.Lo+idx < len(arr.F) {
+					return arr.F[sl.Lo+idx]
+				}
+				return env.fail("index %d outside the slice %s", idx, nodeText(n.Args[0]))
+			}
+		}
 		if _, isNil := base.(VNil); isNil {
 			if mt, ok := env.typeOf(n.Args[0]).Underlying().(*types.Map); ok {
 				if _, vs, absent, ok := mapSorts(mt); ok && absent.S != "" {
